@@ -1,6 +1,7 @@
 package main
 
 import (
+	"go/constant"
 	"fmt"
 	"go/token"
 	"go/types"
@@ -55,6 +56,51 @@ func runC09(c *Ctx) {
 			}
 			if !set {
 				good = false
+			}
+		}
+		// which starts are refused: the 64-bit block takes every uint32 start (integers up to 2^42), the 32-bit one
+		// refuses exactly those above MaxU32TipStart — a bound borrowed from the sibling loses serialised blocks
+		if good && n > 0 {
+			startKey := "$" + fn.Params[0].Name()
+			var limit int64 = -1
+			if ctor == "NewU32BitTipFromData" {
+				if nc, isC := c.ssaPkg(rel).Members["MaxU32TipStart"].(*ssa.NamedConst); isC {
+					limit, _ = constant.Int64Val(constant.ToInt(nc.Value.Value))
+				}
+			}
+			for _, t := range traces {
+				if t.End != EndReturn || len(t.Ret) != 2 || !good {
+					continue
+				}
+				for _, f := range t.factsBefore(len(t.Events)) {
+					x, y := f.X, f.Y
+					for x.Kind == KConv {
+						x = x.Args[0]
+					}
+					for y.Kind == KConv {
+						y = y.Args[0]
+					}
+					var k *Sym
+					opOK := false
+					if x.Key() == startKey {
+						k = y
+						opOK = f.Op == token.GTR || f.Op == token.LEQ
+					} else if y.Key() == startKey {
+						k = x
+						opOK = f.Op == token.LSS || f.Op == token.GEQ
+					} else {
+						continue
+					}
+					v, isC := k.intConst()
+					if limit < 0 || !isC || v != limit || !opOK {
+						good = false
+						c.violated("C09.block-membership", rel+"."+ctor+" start", fn.Pos(), ctor+" decides on the start it is given ("+c.short(f.X.Key())+" "+f.Op.String()+" "+c.short(f.Y.Key())+") other than by the block kind's own limit: a block that was serialised cannot be rebuilt from (Start, bytes)", c.witness(t, len(t.Events)-1)...)
+						break
+					}
+				}
+			}
+			if !good {
+				continue
 			}
 		}
 		c.check(good && n > 0, "C09.block-membership", rel+"."+ctor+" start", fn.Pos(), "Start = start on every successful path", ctor+" returns a block whose Start is not the start it was given on some successful path (e.g. the empty bitmap): the block answers for the integers of another block")
@@ -547,7 +593,7 @@ func (c *Ctx) checkBlockMembership(cfg TraceConfig) {
 		for _, t := range traces {
 			val := t.Params[len(t.Params)-1]
 			for i, e := range t.Events {
-				if e.Kind != EvCall || e.Method == nil || e.Method.Name() != "SetI16" {
+				if e.Kind != EvCall || e.Method == nil || !strings.HasPrefix(e.Method.Name(), "SetI") && !strings.HasPrefix(e.Method.Name(), "SetU") {
 					continue
 				}
 				n++
